@@ -628,8 +628,12 @@ _ADDED8 = {'C05': ' Round 11: attacks that start with 1 or 2 workers and grow th
            'C06': ' Round 11: transports that answer after reading only a prefix (0, 1, 9, ... bytes) of the request body - bytes-out is the request body length all the same.',
            'C07': ' Round 11: instants before 1970 (back to 1684), where the seconds are negative and the nanosecond part still counts upwards.',
            'C08': ' Round 11: instants before 1970 (back to 1684).',
-           'C09': ' Round 11: instants before 1970 (back to 1684).',
            'C10': ' Round 11: the optional latency histogram attached to the report, with 1..4 bounds at and around the latencies of the case that need not start at 0 - no metric changes.',
-           'C13': ' Round 11: instants before 1970 (back to 1684).'}
+           'C09': ' Round 11: instants before 1970 (back to 1684); every cut prefix also read from a reader that delivers its last bytes together with EOF, in one piece or in chunks.',
+           'C13': ' Round 11: instants before 1970 (back to 1684); 31..130 short input files with the longest among the last.',
+           'C14': ' Round 11: two targeters over one document alive at the same time and called in turn.',
+           'C16': ' Round 11: -connect-to given up to five times on one command line with destinations named again.',
+           'C19': ' Round 11: -rate period multiples at and beyond what a Duration holds (the largest that fits is accepted exactly, one more is rejected); -connect-to destinations named again.',
+           'C20': ' Round 11: error messages of 1023..65537 bytes that differ only in their last byte or rune.'}
 for _k, _v in _ADDED8.items():
     PROPS[_k]["rule"] += _v
